@@ -286,8 +286,11 @@ def install_points():
     from dv import sched, simkernel as sk
     mods = sk.load_node()
     N = mods["node"].Node
-    return sched.install({N.remove_peer_connection: r"any_peer_ready|is_ready|app_peer|for app", N._flag_connection_as_ready: None,
-                          N._assign_peer_connection: None})
+    return sched.install({N.remove_peer_connection: None, N._flag_connection_as_ready: None,
+                          N._assign_peer_connection: None, N.close_connection_socket: None,
+                          N.receive_cer: r"_assign_peer_connection|_flag_connection_as_ready|send_message",
+                          N.receive_cea: r"_assign_peer_connection|_flag_connection_as_ready",
+                          N._handle_connections: r"\.recv\(|add_in_bytes|close_connection_socket\("})
 
 
 def ready_vs_removal(decisions):
@@ -321,12 +324,64 @@ def ready_vs_removal(decisions):
         w.close()
 
 
+def handshake_vs_eof(decisions, direction="in"):
+    """The CER (or, on a dialled connection, the CEA) and the EOF of the same connection reach the node in one
+    instant: the connection's reader thread completes the capabilities exchange while the I/O thread removes the
+    connection."""
+    from dv import sched
+    w = W.NodeWorld({"peers": [{"name": "peer1.example", "ip": ["10.1.1.1"], "persistent": direction == "out", "reconnect_wait": 1000}],
+                     "apps": [{"app_id": 4, "auth": True, "peers": [0], "handler": "answer"}],
+                     "node_timers": {"idle": 5000, "dwa": 50, "cer": 50, "cea": 50, "wakeup": 5}, "default_dial": "ok"})
+    try:
+        w.start()
+        ex = sched.Explorer(decisions)
+        sched.attach(w.k, ex)
+        if direction == "in":
+            a = w.accept("10.1.1.1")
+            a.host = "peer1.example"
+            w.feed_msg(a, {"k": "CER", "host": "peer1.example", "auth": [4], "hbh": 0x101, "e2e": 0x101}, run=False)
+        else:
+            a = w.conns[0]
+            a.host = "peer1.example"
+            cers = [f for f in a.refresh() if f.code == W.CMD_CE and f.is_request]
+            w.feed_msg(a, {"k": "CEA", "host": "peer1.example", "result": 2001, "auth": [4], "hbh": cers[-1].h["hbh"], "e2e": cers[-1].h["e2e"]}, run=False)
+        a.peer_closed = True
+        a.remote.close()
+        ex.armed = True
+        w.k.run()
+        ex.armed = False
+        w.advance(1)
+        problems = [(sig, d) for sig, d in W.monitor_tables(w)]
+        for sig, d in W.monitor_threads(w):
+            problems.append((f"thread-died/{sig}", d))
+        return ex.trace, problems
+    finally:
+        w.close()
+
+
 def schedule_part(rec, shard, nshards, thorough):
     from dv import sched
     from dv.common import fp
     info = install_points()
     if shard == 0:
         rec.extra["preemption_functions"] = info
+    for direction in ("in", "out"):
+        holder3 = {}
+
+        def run_three(dec, direction=direction):
+            tr, problems = handshake_vs_eof(dec, direction)
+            holder3["last"] = problems
+            return tr
+        n3 = 0
+        for dec, trace in sched.enumerate_schedules(run_three, 3 if thorough else 2, shard, nshards):
+            case = {"handshake_vs_eof": direction, "schedule": {str(i): c for i, c in sorted(dec.items())}}
+            for kind, detail in holder3["last"]:
+                rec.violation(f"C13/handshake-vs-eof/{kind}", case, detail)
+            n3 += 1
+            rec.case(fp("sched-h", direction, tuple(sorted(dec.items()))) if dec else None,
+                     ["schedule-exploration", f"handshake-vs-eof:{direction}", f"deviations:{len(dec)}"],
+                     sample=lambda: dict(case, choice_points=len(trace)))
+        rec.extra["handshake_vs_eof_schedules"] = rec.extra.get("handshake_vs_eof_schedules", 0) + n3
     holder = {}
 
     def run_one(dec):
